@@ -34,7 +34,7 @@ def regen(ctx):
 SPEC = {
     "lean_props": ["Hive.Props.C16", "Hive.Props.C16Old", "Hive.Props.C16Var"],
     "regen": regen,
-    "lean_namespace": ["Hive.WP", "Hive.WPG", "Hive.WPOld", "Hive.WPVar", "Hive.WPS"],
+    "lean_namespace": ["Hive.WP", "Hive.WPG", "Hive.WPOld", "Hive.WPVar", "Hive.WPS", "Hive.WPD"],
     "driver": "drv_c16",
     "harness": "c16",
     "harness_timeout": {"quick": 1500, "thorough": 6000},
@@ -44,7 +44,7 @@ SPEC = {
                  "C16_old_submit_window_lost_witness", "C16_old_submit_window_hang_witness", "C16_old_signal_lost_witness",
                  "C16_old_start_witness", "C16_old_start_race_witness", "C16_haswork_order_witness", "C16_signal_one_witness",
                  "C16_foreign_waiters_example", "C16_subscriber_stream",
-                 "C16_zero_workers_witness", "C16_sched_haswork_example", "C16_sched_foreign_example", "C16_sched_window_example", "C16_sched_window_busy_example", "C16_sched_gap_example", "C16_sched_restart_example", "C16_sched_start_race_example", "C16_old_sched_example", "C16_variant_sched_example", "C16_stack_fifo", "C16_counter_update", "C16_group_shutdown_wait", "C16_group_flags_monotone", "C16_group_stopped_pool_drains", "C16_group_shutdown_stops_children", "C16_group_shutdown_window_example", "C16_group_shutdown_orphan_example",
+                 "C16_zero_workers_witness", "C16_sched_haswork_example", "C16_sched_foreign_example", "C16_sched_window_example", "C16_sched_window_busy_example", "C16_sched_gap_example", "C16_sched_restart_example", "C16_sched_start_race_example", "C16_old_sched_example", "C16_variant_sched_example", "C16_stack_fifo", "C16_counter_update", "C16_debounce", "C16_debounce_example", "C16_group_shutdown_wait", "C16_group_flags_monotone", "C16_group_stopped_pool_drains", "C16_group_shutdown_stops_children", "C16_group_shutdown_window_example", "C16_group_shutdown_orphan_example",
                  "C16_skeleton_WorkerPool_Start", "C16_skeleton_WorkerPool_startIfStopped", "C16_skeleton_WorkerPool_Submit", 
                  "C16_skeleton_WorkerPool_increasePendingTasksIfRunning", "C16_skeleton_WorkerPool_decreasePendingTasks", "C16_skeleton_WorkerPool_hasWork", 
                  "C16_skeleton_WorkerPool_IsRunning", "C16_skeleton_WorkerPool_Shutdown", "C16_skeleton_WorkerPool_stop", 
@@ -68,10 +68,11 @@ SPEC = {
         "WorkerPool.Start (repaired), Submit, IsRunning, Shutdown, dispatcher, worker, workerReadLoop, handleShutdown; Task.run/markDone; Stack.Push/PopOrWait/Size/SignalShutdown; Counter.Update/WaitIsZero; Group.CreatePool/CreateGroup/WaitChildren (counter tree)",
         "queue and dispatch channel are modelled as sets (pop/receive order is not part of the property)",
         "Group.Shutdown / Group.shutdown / IsShutdown: flag first, pools stopped one by one, recursion, early return at a set flag (Hive/Model/WorkerPoolGroupSd.lean); syncutils.Counter and syncutils.Stack sequentially, whole exported API (Hive/Model/WorkerPoolSync.lean); workerCount 0 as a scenario of the protocol model (witness that 0 < W is needed)",
-        "NOT modelled: panicking task functions, DebounceFunc, debug deadlock detection, Go's 'WaitGroup is reused before previous Wait has returned' panic, restarting a pool that its group has stopped",
+        "WorkerPool.DebounceFunc as its own protocol model (Hive/Model/WorkerPoolDebounce.lean: invocation counter, the two checks, execMutex; any number of callers and tasks)",
+        "NOT modelled: panicking task functions, debug deadlock detection, Go's 'WaitGroup is reused before previous Wait has returned' panic, restarting a pool that its group has stopped",
         "Counter.Update with its subscriber chain and Start's spawn under the write lock are single atomic steps (justified by the locks held; see Hive/Model/WorkerPool.lean, Hive/Model/WorkerPoolGroup.lean)"],
     "manifest": {
-        "text": "Lean theorems over every worker count >= 1, cancel-on-shutdown on/off, any number of client threads with arbitrary scripts of Submit (tasks submitting tasks to any depth) / Shutdown / Start / ShutdownComplete.Wait / WaitIsZero and every interleaving (invariants over all reachable configurations of a protocol model whose state contains the pool's own goroutines): C16_conservation (every trace satisfies the C16 trace predicate: each task decided/run/marked done at most once, never run when rejected, counter = accepted - finished in unit steps, decreases accounted for by finished runs or - cancel-on-shutdown after a Shutdown call - by tasks that never ran), C16_no_run_after_shutdown_complete, C16_shutdown_terminates (FULL strength, no schedule hypothesis: every reachable configuration in which nobody can move has counter 0, every call returned except ShutdownComplete waits on a pool that runs again, and no live goroutine in a stopped pool; C16_exactly_once: accepted = finished), C16_group_wait (group counter = number of children with a non-zero counter; WaitChildren returns only when every pool below is at zero, arbitrary trees), C16_group_shutdown_wait (the same over every interleaving with the separate steps of Group.shutdown - flag first, pools stopped one by one - and whole Group.Shutdown calls: a task accepted between the flag and the stop of its pool counts all the way up), C16_group_stopped_pool_drains / C16_group_flags_monotone (a pool stopped by its group never counts up again; flags are never reset), C16_stack_fifo and C16_counter_update for the sequential models of syncutils.Stack / Counter, C16_zero_workers_witness (with worker count 0 the conclusion fails: the hypothesis is necessary). Four defects were found, replayed on the real code through verif hooks and FIXED (b9bfa1a Shutdown();Start() deadlock, 9b2668a Submit window, a0dbad3 lost SignalShutdown wake-up, 1119368 Start overtaken by a restart); the old behaviour is kept as C16_old_*_witness over a frozen model of the old code. The model reads isRunning before the pending counter as two steps (a swapped order loses a task: C16_haswork_order_witness) and carries an arbitrary number of foreign Queue.WaitSizeIsAbove waiters on elementAdded (Signal instead of Broadcast fails: C16_signal_one_witness). Tie: 41 regenerated obligations (36 synchronisation skeletons incl. Group.shutdown, Counter.Subscribe/notifySubscribers, and 5 struct type facts) as decide-obligations; a hook-free forced window of Group.Shutdown (group sdwin: a parked counter subscriber holds one pool's read lock) and Group.Shutdown / IsShutdown in the group scripts, answered line by line by the Lean group model; a Submit/IsRunning vs Shutdown;Start lock-race hammer with watchdog; syncutils.Counter / Stack driven line by line against their Lean models (sync seq); event traces of real goroutines (7 hook-forced schedules, foreign queue waiters, worker counts up to 3*NumCPU, group pools with explicit options, deterministic life cycles, stress over W 1..4 x cancel x modes x nesting; group trees) judged line by line by the Lean trace predicate and by an independent Go monitor; forced-schedule outcomes must equal the model's; independent Go oracle (per-task run counts, counter at quiescence, bounded waits).",
+        "text": "Lean theorems over every worker count >= 1, cancel-on-shutdown on/off, any number of client threads with arbitrary scripts of Submit (tasks submitting tasks to any depth) / Shutdown / Start / ShutdownComplete.Wait / WaitIsZero and every interleaving (invariants over all reachable configurations of a protocol model whose state contains the pool's own goroutines): C16_conservation (every trace satisfies the C16 trace predicate: each task decided/run/marked done at most once, never run when rejected, counter = accepted - finished in unit steps, decreases accounted for by finished runs or - cancel-on-shutdown after a Shutdown call - by tasks that never ran), C16_no_run_after_shutdown_complete, C16_shutdown_terminates (FULL strength, no schedule hypothesis: every reachable configuration in which nobody can move has counter 0, every call returned except ShutdownComplete waits on a pool that runs again, and no live goroutine in a stopped pool; C16_exactly_once: accepted = finished), C16_group_wait (group counter = number of children with a non-zero counter; WaitChildren returns only when every pool below is at zero, arbitrary trees), C16_group_shutdown_wait (the same over every interleaving with the separate steps of Group.shutdown - flag first, pools stopped one by one - and whole Group.Shutdown calls: a task accepted between the flag and the stop of its pool counts all the way up), C16_group_stopped_pool_drains / C16_group_flags_monotone (a pool stopped by its group never counts up again; flags are never reset), C16_debounce (DebounceFunc: workerFuncs execute in strictly increasing invocation order, never overlap, and the latest invocation is never dropped; all interleavings of any number of callers and tasks), C16_stack_fifo and C16_counter_update for the sequential models of syncutils.Stack / Counter, C16_zero_workers_witness (with worker count 0 the conclusion fails: the hypothesis is necessary). Four defects were found, replayed on the real code through verif hooks and FIXED (b9bfa1a Shutdown();Start() deadlock, 9b2668a Submit window, a0dbad3 lost SignalShutdown wake-up, 1119368 Start overtaken by a restart); the old behaviour is kept as C16_old_*_witness over a frozen model of the old code. The model reads isRunning before the pending counter as two steps (a swapped order loses a task: C16_haswork_order_witness) and carries an arbitrary number of foreign Queue.WaitSizeIsAbove waiters on elementAdded (Signal instead of Broadcast fails: C16_signal_one_witness). Tie: 41 regenerated obligations (36 synchronisation skeletons incl. Group.shutdown, Counter.Subscribe/notifySubscribers, and 5 struct type facts) as decide-obligations; a hook-free forced window of Group.Shutdown (group sdwin: a parked counter subscriber holds one pool's read lock) and Group.Shutdown / IsShutdown in the group scripts, answered line by line by the Lean group model; a Submit/IsRunning vs Shutdown;Start lock-race hammer with watchdog; syncutils.Counter / Stack driven line by line against their Lean models (sync seq); DebounceFunc stress whose execution trace is judged by the predicate of C16_debounce and by an independent Go oracle; event traces of real goroutines (7 hook-forced schedules, foreign queue waiters, worker counts up to 3*NumCPU, group pools with explicit options, deterministic life cycles, stress over W 1..4 x cancel x modes x nesting; group trees) judged line by line by the Lean trace predicate and by an independent Go monitor; forced-schedule outcomes must equal the model's; independent Go oracle (per-task run counts, counter at quiescence, bounded waits).",
         "note": "Trusted: Lean kernel; hand-written model Hive/Model/WorkerPool*.lean (tied by skeleton obligations + trace conformance + forced schedules, not by translation); Go sync primitive semantics as written in the model; atomicity of Counter.Update+subscribers and of Start's spawn; queue/channel order abstracted; worker count 0 and panicking tasks outside the model. After 9b2668a Counter.Increase and its subscribers run under the pool read lock (a subscriber must not call back into the pool).",
         "technique": "Lean 4 invariant proofs over an interleaving protocol model (arbitrary thread pool, all schedules) + decidable trace predicates evaluated on recorded traces of the implementation + hook-forced witness schedules + regenerated sync skeletons",
     },
